@@ -92,6 +92,42 @@ pub fn check(sh: &Shared, c: &Case) -> Check {
                         fail!("truth:accessor-value", "{t:?}.c() = {x:?}");
                     }
                 }
+                // every spelling of the accessors (trait methods included)
+                {
+                    use narsese::api::EvidentValue;
+                    let fs = [guard(|| t.frequency()), guard(|| t.get_frequency()), guard(|| t.get_frequency_confidence().0)];
+                    let cs = [guard(|| t.confidence()), guard(|| t.get_confidence()), guard(|| t.get_frequency_confidence().1)];
+                    for (i, r) in fs.iter().enumerate() {
+                        // the pair accessor needs both components
+                        let need = if i == 2 { 2 } else { 1 };
+                        match r {
+                            Ok(x) => {
+                                if k < need || !same(*x, v[0]) {
+                                    fail!("truth:accessor-value", "{t:?}: frequency accessor #{i} returned {x:?}");
+                                }
+                            }
+                            Err(_) => {
+                                if k >= need {
+                                    fail!("truth:accessor-panics", "{t:?}: frequency accessor #{i} panicked");
+                                }
+                            }
+                        }
+                    }
+                    for (i, r) in cs.iter().enumerate() {
+                        match r {
+                            Ok(x) => {
+                                if k < 2 || !same(*x, v[1]) {
+                                    fail!("truth:accessor-value", "{t:?}: confidence accessor #{i} returned {x:?}");
+                                }
+                            }
+                            Err(_) => {
+                                if k >= 2 {
+                                    fail!("truth:accessor-panics", "{t:?}: confidence accessor #{i} panicked");
+                                }
+                            }
+                        }
+                    }
+                }
             }
         }
     }
@@ -267,7 +303,7 @@ pub fn float() -> BoxedStrategy<u64> {
 }
 
 pub fn strategy() -> BoxedStrategy<Case> {
-    (vec(float(), 0..=5), prop_oneof![(1usize..=64), select(vec![100usize, 1_000_000])]).prop_map(|(vals, n)| Case { vals, n }).boxed()
+    (vec(float(), 0..=5), prop_oneof![40 => (1usize..=64), 20 => select(vec![100usize, 1_000_000, usize::MAX, usize::MAX - 1, 1 << 31, (1 << 31) + 1, (1 << 31) - 1, u32::MAX as usize, 1 << 32, (1 << 32) + 1, 1 << 52, 1 << 53, (1 << 53) + 1, 1 << 62, 1 << 63, (1 << 63) + 1]), 40 => (1usize..=usize::MAX)]).prop_map(|(vals, n)| Case { vals, n }).boxed()
 }
 
 pub fn enumerate() -> Vec<Case> {
